@@ -38,6 +38,12 @@ def run(tier, seed, replay=None):
     rng = random.Random(seed)
     # ---- part 1: the committed reference corpus, read by the current reader and by the extracted decoder
     idx = json.load(open(os.path.join(CORPUS, "index.json")))
+    rtxt = open(replay).read() if replay else ""
+    if replay and rtxt.startswith("corpus "):
+        want = rtxt.split()[1]
+        idx = dict(idx, entries=[e for e in idx["entries"] if e["id"] == want])
+    elif replay:
+        idx = dict(idx, entries=[])
     ccases = os.path.join(wd, "corpus_cases.txt")
     with open(ccases, "w") as f:
         for e in idx["entries"]:
@@ -94,10 +100,12 @@ def run(tier, seed, replay=None):
                           "corpus %s\n# model: %s\n" % (e["id"], mm[:3]), found_input=False)
     # ---- part 2: fresh containers: the independent decoder must recover exactly what was written
     pcases = []
-    for i in range(9 if tier == "quick" else 60):
+    for i in range(0 if replay else 9 if tier == "quick" else 60):
         pcases.append(dict(id="f%d" % i, pkg=["one", "two", "no"][i % 3], comp=rng.choice(["none", "zstd", "lz4", "lzma"]),
                            n=rng.choice([0, 1, 4, 9]), extra=rng.choice([0, 1, 2]), seed=rng.randint(1, 10**6), ops=[]))
-    rm = P.run_cases(res, pcases, seed, model_extra=["canon"])
+    if replay and " pkgs " in rtxt:
+        pcases = P.parse_replay(replay)
+    rm = P.run_cases(res, pcases, seed, model_extra=["canon"]) if pcases else None
     nfresh = 0
     if rm:
         R2, M2 = rm
@@ -118,7 +126,9 @@ def run(tier, seed, replay=None):
                     c["id"], c["pkg"], c["comp"], got[k] if k < len(got) else "<missing>", want[k] if k < len(want) else "<missing>", detail),
                     P.case_text(c, seed))
     dcases = [c for c in c02.gen_cases(seed + 1, "quick")][: (25 if tier == "quick" else 70)]
-    rm = D.run_cases(res, dcases, seed)
+    if replay:
+        dcases = D.parse_replay(replay) if " dir\n" in rtxt else []
+    rm = D.run_cases(res, dcases, seed) if dcases else None
     if rm:
         R3, M3 = rm
         for c in dcases:
@@ -136,7 +146,8 @@ def run(tier, seed, replay=None):
         "corpus_entries": ncorpus, "fresh_containers": nfresh, "structure_blocks_checked_canonical": ncanon[0],
         "rule": "every file set of the committed reference corpus (35 containers written by the pinned version: 3 packagings x 4 compressions, plain/indexed stores, all property kinds) read by the current reader and by the extracted decoder; "
                 "plus fresh whole containers and directory packs decoded by the extracted decoder and compared with what was written; non-trivial = all but the empty container",
-        "samples": ["corpus " + idx["entries"][0]["id"] + " " + str(idx["entries"][0]["expected"][:2]), P.case_text(pcases[0], seed)],
+        "samples": (["corpus " + idx["entries"][0]["id"] + " " + str(idx["entries"][0]["expected"][:2])] if idx["entries"] else []) +
+                   ([P.case_text(pcases[0], seed)] if pcases else []) + ([D.case_text(dcases[0], seed)[:300]] if dcases and replay else []),
         "disagreements_checked": dis, "exhaustive": False,
     })
     return res.finish()
